@@ -106,6 +106,13 @@ impl Arena {
             let len = (self.offset.get() + 128).min(commit) - to;
             unsafe { slice::from_raw_parts_mut(self.base.add(to).as_ptr(), len).fill(0xDD) };
         }
+        #[cfg(naijascript_verif)]
+        crate::sys::verif_shim::mem::on_arena_reset(
+            self.base.as_ptr(),
+            to,
+            self.offset.get(),
+            self.commit.get(),
+        );
 
         self.offset.replace(to);
     }
